@@ -164,6 +164,10 @@ def _len(interp, v: Any) -> Any:
             return r
         if v.kind == "bytes:header":
             return len(v.attrs["data"])
+        if v.kind == "bytes:chunk":
+            if v.attrs.get("exact") and isinstance(v.attrs.get("n"), int):
+                return v.attrs["n"]
+            return Unknown(("chunk-len", v.uid), "length of a possibly short read")
     raise interp.exc("TypeError", f"object {v!r} has no len()")
 
 
@@ -753,8 +757,7 @@ def _parse_length_prefixed(interp, args, kwargs):
         offset = src.attrs.get("pos", 0)
         if offset != 0:
             interp.emit("misaligned", offset=offset)
-        frames = src.attrs["frames"]
-        ok, fr = interp.next_value(frames)
+        ok, fr = _next_frame(interp, src)
         interp.emit("frame_pull", got=ok, frame=fr)
         if not ok:
             return None
@@ -775,7 +778,31 @@ def _parse(interp, args, kwargs):
         if not ok:
             return new_msg(interp, cls.mtype, [], {})
         return fr
+    if isinstance(data, ExtObj) and data.kind in ("bytes:chunk", "bytes:header") and isinstance(data.attrs.get("stream"), ExtObj):
+        # a frame body read by pyjelly's own code (not by protobuf's length-prefixed reader)
+        src = data.attrs["stream"]
+        interp.emit("parse_input", exact=bool(data.attrs.get("exact")), via=data.attrs.get("via"), n=data.attrs.get("n"))
+        ok, fr = _next_frame(interp, src)
+        interp.emit("frame_pull", got=ok, frame=fr, own_reader=True)
+        if not ok:
+            raise interp.exc("DecodeError", "Error parsing message")
+        return fr
     return fresh_unknown("parse")
+
+
+def _frames_remaining(interp, root: ExtObj) -> bool:
+    if "peeked" in root.attrs:
+        return True
+    ok, fr = interp.next_value(root.attrs["frames"])
+    if ok:
+        root.attrs["peeked"] = fr
+    return ok
+
+
+def _next_frame(interp, root: ExtObj):
+    if "peeked" in root.attrs:
+        return True, root.attrs.pop("peeked")
+    return interp.next_value(root.attrs["frames"])
 
 
 def _serialize_length_prefixed(interp, args, kwargs):
@@ -996,7 +1023,7 @@ def getattr_ext(interp, obj: Any, name: str) -> Any:
             raise interp.exc("AttributeError", f"'_io.BytesIO' object has no attribute '{name}'")
         if obj.kind == "io.BufferedReader" and name == "raw":
             return obj.attrs["raw"]
-        if obj.kind in ("io.stream", "io.BufferedReader", "io.out", "contextvars.ContextVar", "bytes:frame", "bytes:all", "bytes:header"):
+        if obj.kind in ("io.stream", "io.BufferedReader", "io.out", "contextvars.ContextVar", "bytes:frame", "bytes:all", "bytes:header", "bytes:chunk"):
             return ExtMethod(obj, obj.kind, name)
         if obj.kind == "logger":
             return ExtMethod(obj, "logger", name)
@@ -1673,7 +1700,7 @@ def _io_method(interp, o: ExtObj, name: str, args: list, kwargs: dict) -> Any:
                     raise interp.exc("AttributeError", "'_io.BytesIO' object has no attribute 'peek'")
             # read(n) on any BufferedReader / buffered object is exact-or-EOF; peek(n) does at most one read on the
             # object below: exact only when that object is itself buffered
-            exact = (name == "read" and (is_wrapper or root.attrs["buffered"])) or (name == "peek" and is_wrapper and below_buffered)
+            exact = (name == "read" and (is_wrapper or root.attrs["buffered"])) or (name == "peek" and is_wrapper and below_buffered) or (name == "read1" and not is_wrapper and root.attrs["buffered"])
             interp.emit("io", method=name, recv=o, n=n, exact=exact, wrapper=is_wrapper, raw_after_wrap=(not is_wrapper and root.attrs.get("wrapped", False)))
             root.attrs["reads"].append((name, n, "wrapper" if is_wrapper else "raw"))
             if n is None or (isinstance(n, int) and n < 0):
@@ -1683,6 +1710,12 @@ def _io_method(interp, o: ExtObj, name: str, args: list, kwargs: dict) -> Any:
             hdr = root.attrs["header"]
             if hdr is None:
                 return fresh_unknown("header bytes")
+            if name != "peek" and isinstance(root.attrs["pos"], int) and (root.attrs["pos"] >= len(hdr) or not isinstance(n, int) or root.attrs.get("own_reader")):
+                # pyjelly reads frame bytes itself: opaque chunks; a one-byte read is a final varint byte (value 5)
+                root.attrs["own_reader"] = True
+                if not _frames_remaining(interp, root):
+                    return b""
+                return ExtObj("bytes:chunk", {"stream": root, "n": n, "exact": exact, "via": name, "data": b"\x05" if n == 1 else None})
             if name == "peek":
                 # peek returns the whole buffered chunk (at least n bytes when exact), not just n bytes
                 data = hdr[root.attrs["pos"] :] + b"\x12\x34\x0a\x0a\x56"
@@ -1690,7 +1723,11 @@ def _io_method(interp, o: ExtObj, name: str, args: list, kwargs: dict) -> Any:
                 data = hdr[root.attrs["pos"] : root.attrs["pos"] + n] if isinstance(n, int) else hdr
             if name != "peek":
                 root.attrs["pos"] += len(data)
-            return ExtObj("bytes:header", {"data": data, "exact": exact, "via": name})
+                if isinstance(n, int) and n != 3 and n > len(data):
+                    # a body read that runs past the modelled header bytes: the rest of that frame
+                    root.attrs["own_reader"] = True
+                    return ExtObj("bytes:chunk", {"stream": root, "n": n, "exact": exact, "via": name, "data": None})
+            return ExtObj("bytes:header", {"data": data, "exact": exact, "via": name, "stream": root})
         if name == "seek":
             off = args[0]
             whence = args[1] if len(args) > 1 else kwargs.get("whence", 0)
@@ -1759,6 +1796,11 @@ def getitem(interp, base: Any, idx: Any) -> Any:
     if isinstance(base, ExtObj) and base.kind == "bytes:header":
         d = base.attrs["data"]
         return d[_norm_index(interp, len(d), idx, "bytes")]
+    if isinstance(base, ExtObj) and base.kind == "bytes:chunk":
+        d = base.attrs.get("data")
+        if d is not None:
+            return d[_norm_index(interp, len(d), idx, "bytes")]
+        return Unknown(("chunk-byte", base.uid, repr(idx)), "byte of a frame body")
     if isinstance(base, Obj):
         m = interp.lookup_class_attr(base.cls, "__getitem__")
         if m is not MISSING:
@@ -1995,6 +2037,8 @@ def truth_ext(interp, v: ExtObj, tag: str) -> bool:
         return models_rdflib.truth(interp, v, tag)
     if v.kind == "bytes:header":
         return bool(v.attrs["data"])
+    if v.kind == "bytes:chunk":
+        return True
     if v.kind in ("bytes:frame", "bytes:all", "bytes:encoded"):
         return interp.decide(("truth", v.uid), f"{tag}:nonempty bytes")
     return True
